@@ -51,6 +51,9 @@ type TxSpec struct {
 	Gas        uint64       `json:"gas,omitempty"`
 	Memo       string       `json:"memo,omitempty"`
 	Timeout    uint64       `json:"timeout,omitempty"`
+	// TipFrom / TipAmount set the optional AuthInfo.tip field (tipper address, amount).
+	TipFrom   string    `json:"tip_from,omitempty"`
+	TipAmount sdk.Coins `json:"tip_amount,omitempty"`
 }
 
 // DefaultGas is ample for every custom message (a 5000-byte record costs ~200k).
@@ -81,6 +84,9 @@ func (c *Chain) BuildTx(spec TxSpec) (raw []byte, err error) {
 	b.SetFeeAmount(spec.Fee)
 	b.SetMemo(spec.Memo)
 	b.SetTimeoutHeight(spec.Timeout)
+	if spec.TipFrom != "" {
+		b.SetTip(&txtypes.Tip{Tipper: spec.TipFrom, Amount: spec.TipAmount})
+	}
 	if spec.FeePayer != "" {
 		fp, err := sdk.AccAddressFromBech32(spec.FeePayer)
 		if err != nil {
